@@ -105,6 +105,28 @@ def memVal (mk : Nat → Nat → Nat → Nat → Bytes → Option ReqVal) (bs : 
   | none => none
   | some f => mk f.addrLen f.sizeLen f.address f.size f.rest
 
+/-- RequestFileTransfer: modeOfOperation, filePathAndNameLength + path, then per mode the dataFormatIdentifier, fileSizeParameterLength and the two sizes -/
+def decodeRft (p : Bytes) : Option ReqVal :=
+  match pU8 p with
+  | none => none
+  | some (moop, r) => match pLen16 r with
+    | none => none
+    | some (path, r2) =>
+      let hasDfi := moop == 1 || moop == 3 || moop == 4 || moop == 6
+      let hasSize := moop == 1 || moop == 3 || moop == 6
+      if !hasDfi then (if r2.isEmpty then some (.fileTransfer moop path none none none none) else none)
+      else match pU8 r2 with
+        | none => none
+        | some (dfi, r3) =>
+          if !hasSize then (if r3.isEmpty then some (.fileTransfer moop path (some dfi) none none none) else none)
+          else match pU8 r3 with
+            | none => none
+            | some (n, r4) => match pBE n r4 with
+              | none => none
+              | some (u, r5) => match pBE n r5 with
+                | none => none
+                | some (c, r6) => if r6.isEmpty then some (.fileTransfer moop path (some dfi) (some n) (some u) (some c)) else none
+
 /-- parameters after the service identifier of a service *without* sub-function -/
 def decodeNoSubfn (view : SrvView) (sid : Nat) (p : Bytes) : Option ReqVal :=
   if sid == 0x22 then (pDidList p.length p).map .rdbi
@@ -138,26 +160,7 @@ def decodeNoSubfn (view : SrvView) (sid : Nat) (p : Bytes) : Option ReqVal :=
       else match pU8 r with
         | some (m, r2) => if r2.isEmpty then some (.clearDtc g (some m)) else none
         | none => none
-  else if sid == 0x38 then
-    match pU8 p with
-    | none => none
-    | some (moop, r) => match pLen16 r with
-      | none => none
-      | some (path, r2) =>
-        let hasDfi := moop == 1 || moop == 3 || moop == 4 || moop == 6
-        let hasSize := moop == 1 || moop == 3 || moop == 6
-        if !hasDfi then (if r2.isEmpty then some (.fileTransfer moop path none none none none) else none)
-        else match pU8 r2 with
-          | none => none
-          | some (dfi, r3) =>
-            if !hasSize then (if r3.isEmpty then some (.fileTransfer moop path (some dfi) none none none) else none)
-            else match pU8 r3 with
-              | none => none
-              | some (n, r4) => match pBE n r4 with
-                | none => none
-                | some (u, r5) => match pBE n r5 with
-                  | none => none
-                  | some (c, r6) => if r6.isEmpty then some (.fileTransfer moop path (some dfi) (some n) (some u) (some c)) else none
+  else if sid == 0x38 then decodeRft p
   else none
 
 /-- parameters after the sub-function byte -/
